@@ -1,6 +1,7 @@
 package main
 
 import (
+	"os"
 	"fmt"
 	"go/token"
 	"go/types"
@@ -658,7 +659,7 @@ func (fr *Frame) step(in ssa.Instruction, st *State, reach string, back map[[2]i
 			}
 			fr.nonNil[x.X] = x.Block()
 		}
-		if !fr.inRecoverScope() && !vc.safety && !fr.knownNonNil(x.X, x.Block()) {
+		if !fr.inRecoverScope() && !vc.safety && !fr.knownNonNil(x.X, x.Block()) && os.Getenv("GOVC_NONIL") == "" {
 			// execution continues past a field access only if the pointer is not nil
 			// (partial correctness; nil dereferences are obligations under the safety flag)
 			vc.assume(reach, fmt.Sprintf("(not (= %s 0))", ref))
@@ -1070,7 +1071,7 @@ func (fr *Frame) indexAddr(x *ssa.IndexAddr, st *State, reach string) {
 		return
 	}
 	ev := vc.elemVar(et)
-	if vc.quantified() {
+	if vc.quantified() && vc.contract != nil && vc.contract.Flags["seed-elems"] {
 		// seed the trigger term of quantified clauses about slice elements (s[i])
 		row := fmt.Sprintf("(select %s %s)", vc.look(st, ev), base)
 		fn := vc.slAt(vc.sortOf(et))
